@@ -59,10 +59,16 @@ def alphabet(cls):
         ops += [('lag', 14)]
     if cls in ('pburg', 'pyule', 'pcovar', 'pmodcovar', 'pminvar', 'parma', 'pmusic', 'pev'):
         ops += [('ar_order', 5), ('ar_order', 'same')]
+        if cls != 'pminvar':            # minvar() insists on a builtin int (errors.is_positive_integer)
+            ops += [('ar_order', 'np6')]
     if cls == 'pma':
         ops += [('ar_order', 10), ('ma_order', 3)]
     if cls == 'parma':
         ops += [('ma_order', 3)]
+    if cls == 'MultiTapering':
+        # NW / k are plain attributes (outside the property's list): they are assigned together with an explicit
+        # computation, after which the estimate must be that of the new value
+        ops += [('NW+call', 3.0), ('k+call', 3)]
     return ops
 
 
@@ -146,6 +152,9 @@ def build_ref(cls, st):
         p['window'] = st['window']
     if cls == 'pcorrelogram':
         p['lag'] = st['lag']
+    if cls == 'MultiTapering':
+        p['NW'] = st.get('NW', p['NW'])
+        p['k'] = st.get('k', p['k'])
     q = E.build(cls, p, np.array(DATA[st['data']], copy=True), NFFT=st['NFFT'], fs=st['fs'], scale=st['scale'])
     if st['detrend'] is not None:
         q.detrend = st['detrend']
@@ -283,9 +292,13 @@ def run_case(c, d):
                 if new != st['lag']:
                     changed.append('lag')
                 st['lag'] = new
+            elif kind in ('NW+call', 'k+call'):
+                setattr(live, kind[:-5], val)
+                st[kind[:-5]] = val
+                live()
             elif kind == 'ar_order':
-                new = st['ar_order'] if val == 'same' else val
-                live.ar_order = new
+                new = st['ar_order'] if val == 'same' else (6 if val == 'np6' else val)
+                live.ar_order = np.int64(6) if val == 'np6' else new
                 if new != st['ar_order']:
                     changed.append('ar_order')
                 st['ar_order'] = new
